@@ -26,7 +26,7 @@ from sa.facts import validated_signs
 from sa.match import SpecCtx
 from sa.spec.si import SIGN, SUBKINDS
 from sa.srcmodel import walk_no_nested
-from sa.sx import SX, Q, N, U, Ov, Uv, Bv, NoneV, Outcome, CannotDecide, implies, make_cmp, parse_annotation
+from sa.sx import abs_consequences, SX, Q, N, U, Ov, Uv, Bv, NoneV, Outcome, CannotDecide, implies, make_cmp, parse_annotation
 
 OPAQUE = {'worm_gear_and_wheel_maximum_helix_angle_function', 'worm_wheel_lewis_factor_function'}
 
@@ -486,7 +486,7 @@ def check_params(model, rep, sx: SX):
         env = {'pwm': N(Rat.atom('pwm'))}
         spec = SpecCtx(sx, 'DCMotor', env=env)
         gs = spec.guards('pwm <= 1 and pwm >= -1')
-        ok = bool(done) and all(all(implies(o.state.guards, g) for g in gs) and
+        ok = bool(done) and all(all(implies(abs_consequences(sx.ctx, o.state.guards), g) for g in gs) and
                                 any(e[0] == 'store' and e[2] == (sx.trivial_getter_field('DCMotor', 'pwm') or '_DCMotor__pwm')
                                     for e in o.state.effects) for o in done)
         rep.decide(ok, 'C19.params', 'DCMotor.pwm[setter]', 'the duty-cycle setter can store a value outside [-1, 1]',
